@@ -49,6 +49,17 @@ def stamp_tie(ck, seed, n):
     db = tf.TinyFlux(storage=MemoryStorage)
     db.insert_multiple([tf.Point(time=epoch + timedelta(microseconds=t), tags={"i": str(i)}) for i, t in enumerate(inst)])
     db.reindex()
+    # what comes back: get_timestamps (served by the valid index from the float stamps) must give exactly the instants that went in
+    back_bad = []
+    try:
+        back = [int((x - epoch) // timedelta(microseconds=1)) if x.tzinfo is not None else None for x in db.get_timestamps()]
+        want = sorted(inst)
+        if sorted(b for b in back if b is not None) != want or len(back) != len(want):
+            diff = [(w, b) for w, b in zip(want, sorted(b for b in back if b is not None)) if w != b][:3]
+            back_bad = diff or [("count", len(back), len(want))]
+    except Exception as e:  # noqa
+        back_bad = [("raise", type(e).__name__, str(e)[:100])]
+    stamp_tie.back_bad = back_bad
     stored = getattr(db.index, "_timestamps", None)
     pairs = []
     if stored is not None and len(stored) == len(inst):
@@ -116,6 +127,10 @@ def main(tier, seed):
         ck.violation({"kind": "proof-broken", "what_no_longer_checks": f"Prop_C08.v {b['theorems']}", "log": b["log"][-1500:], "forbidden": b["forbidden"]}, no_input=True)
     if stamp_err:
         ck.violation({"kind": "model-evaluation-failed", "what_no_longer_checks": "cases_c08_stamp.v (Stamp.stamp vs the float stamps the index stores)", "log": stamp_err}, no_input=True)
+    for item in getattr(stamp_tie, "back_bad", [])[:1]:
+        ck.violation({"kind": "failing-input", "why": "get_timestamps() on a valid index does not give back the instants that were inserted "
+                      "(first differing pair: inserted, returned - microseconds since the epoch)", "first_difference": list(item),
+                      "how_to_replay": "insert points at the instants of harness/c08.py stamp_tie into a MemoryStorage database and compare db.get_timestamps()"})
     for us, impl_hex in stamp_bad[:1]:
         ck.violation({"kind": "correspondence-broken", "instant_us": us, "index_stores": impl_hex,
                       "what_no_longer_checks": "Stamp.stamp (one correctly rounded binary64 division of the microsecond count by 10^6) vs the float the index stores for that instant "
@@ -159,7 +174,7 @@ def main(tier, seed):
                 "(stamp checked against the harness's clock reads); plus ordinary histories; every step compared with the model and with the documented meaning; "
                 "non-trivial = the history updates a time",
         "representations_by_zone": dict(kinds), "zones": ZONES,
-        "float_stamps_compared_bit_for_bit": stamp_n, "float_stamp_mismatches": len(stamp_bad),
+        "float_stamps_compared_bit_for_bit": stamp_n, "instants_read_back_through_get_timestamps": stamp_n, "float_stamp_mismatches": len(stamp_bad),
         "float_stamp_rule": "points at the range ends, +-2^k seconds and +-2^k microseconds (+-2 us around each) and random instants are inserted; the floats the index then holds "
                             "(index._timestamps) must equal Stamp.stamp of the instant bit for bit (compared inside Coq against hexadecimal float literals)",
         "steps_compared_with_documented_meaning": spec_checked, "documented_meaning_mismatches": len(spec_bad),
